@@ -193,4 +193,25 @@ Section Hsim.
     intros Hlen Hp. apply Forall2_same_length_lookup. split; [symmetry; exact Hlen|].
     intros i x x' Hx Hx'. destruct (Hp i x Hx) as (y & Hy & Hs). unfold get, Machine.id in Hy. rewrite Hx' in Hy. injection Hy as ->. exact Hs.
   Qed.
+  (** modulo marks and tracing counters nothing changed *)
+  Lemma hsim_norm x x' : hsim x x' -> (o_box x = BNotYet -> o_hdr x' = o_hdr x) -> norm_obj x' = norm_obj x.
+  Proof.
+    intros (h' & -> & H1 & H2 & H3 & H4) Hny. unfold norm_obj. cbn.
+    destruct (o_box x) eqn:Eb.
+    - cbn in Hny. rewrite (Hny eq_refl). destruct x; reflexivity.
+    - destruct x; cbn in *. f_equal. unfold norm_hdr. rewrite H1, H2, H3, H4. reflexivity.
+    - destruct x; cbn in *. f_equal. unfold norm_hdr. rewrite H1, H2, H3, H4. reflexivity.
+  Qed.
+  Lemma norm_heaps m m' :
+    heaps_hsim m m' ->
+    (forall o x x', get m o = Some x -> get m' o = Some x' -> o_box x = BNotYet -> o_hdr x' = o_hdr x) ->
+    fmap norm_obj (heap m') = fmap norm_obj (heap m).
+  Proof.
+    intros HF Hny. apply list_eq. intros i. rewrite !list_lookup_fmap.
+    destruct (heap m !! i) as [x|] eqn:Ex.
+    - destruct (hs_l _ _ _ _ HF Ex) as (x' & Ex' & Hs). unfold get in Ex'. unfold Machine.id in *. rewrite Ex'. cbn. f_equal.
+      apply hsim_norm; [exact Hs|]. intros Hb. eapply Hny; eauto.
+    - destruct (heap m' !! i) as [x'|] eqn:Ex'; [|reflexivity].
+      destruct (hs_r _ _ i x' HF Ex') as (x & Hx & _). unfold get in Hx. unfold Machine.id in *. congruence.
+  Qed.
 End Hsim.
